@@ -28,6 +28,11 @@ def cases(seed, tier):
             for p in T.all_paths(t)[1:]:      # node metadata only (root metadata renamed after attachment: see DESIGN.md F31)
                 s = T.spec_at(t, p)
                 s['mds'] = [[m[0], m[1], m[0] + '_renamed'] if rng.random() < 0.5 else m for m in s['mds']]
+        if rng.random() < 0.25 and len(T.all_paths(t)) > 1:
+            # one Metadata instance held under two keys of one node (attached, renamed, attached again): its name is the second key
+            s = T.spec_at(t, rng.choice(T.all_paths(t)[1:] or [[]]))     # (not the root: how the append path names root entries is F31)
+            tok = T.fresh_tok()
+            s['mds'] = [m for m in s['mds'] if m[0] not in ('calib', 'calibration')] + [['calib', tok, 'calibration', 'shared'], ['calibration', tok, 'calibration', 'shared']]
         t2 = T.rand_tree(rng, 'q', rng.choice([1, 3]), names=['a', 'b'], md_p=0.3)
         tops = [t, t2]
         for k in range(2):
